@@ -384,6 +384,7 @@ pub const SHAPES: &[(&str, &[&str])] = &[
     ("r_m", &["r", "m"]),
     ("w_mw", &["w", "mw"]),
     ("e_m_m", &["e", "m", "m"]),
+    ("e_mm_nest", &["e", "m", "m"]),
     ("b_r", &["b", "r"]),
     ("bv", &["bv"]),
     ("band_r", &["band", "r"]),
@@ -752,6 +753,12 @@ fn exec_shape(s: &mut Setup, shape: &str, run: &Run) -> (Vec<Value>, Vec<Value>)
             let b = world.read_storage::<D0>();
             let c = world.read_storage::<H0>();
             drive!(run, world, par = yes, (&ents, (&b).maybe(), (&c).maybe()), |(e, y, z)| [ej(e), ro(y), ro(z)])
+        }
+        "e_mm_nest" => {
+            // the optional members grouped in a tuple of their own (a joinable member like any other)
+            let b = world.read_storage::<D0>();
+            let c = world.read_storage::<H0>();
+            drive!(run, world, par = yes, (&ents, ((&b).maybe(), (&c).maybe())), |(e, (y, z))| [ej(e), ro(y), ro(z)])
         }
         "b_r" => {
             let bs = &s.bitsets[0];
